@@ -151,36 +151,76 @@ def run(p, led, tier):
         else:
             led.ok("C16-R3", key, where(fi, fi.node), f"all {n} cells: {'type equal ∧ integrity ≥ port' if rule_name == 'input' else 'type and integrity equal to the declared port'}, else WiringError")
 
-    # ---------------- R2 connect
-    cfgc = cfg_of(cn, led)
-    apps = [n for k, n in attr_writes(cn.node, "wires", "self") if k == "mutcall:append"]
-    reqs = calls_named(cn.node, "require_flow_to")
-    key = "WiringDiagram.connect ▸ check before append"
-    if not apps or not reqs:
-        led.fail("C16-R2", key, where(cn, cn.node), "connect no longer validates with require_flow_to before appending" if apps else "connect appends nothing")
-    else:
-        an = cfgc.node_of(apps[0])
-        rn = cfgc.node_of(reqs[0])
-        seen = cfgc.reach(starts=[cfgc.entry], cut=lambda a, b, l: a is rn and l != "exc")
-        if an in seen:
-            led.fail("C16-R2", key, where(cn, apps[0]), "the wire is appended on a path that did not pass the flow requirement (or passed its exception edge)", path=cfgc.fmt_path(cfgc.witness(seen, an)))
-        else:
-            led.ok("C16-R2", key, where(cn, apps[0]), "append reachable only through the normal edge of require_flow_to(src → dst)")
-    n_foreign = 0
+    # ---------------- R2 every wire that reaches the list was checked: provenance of what the diagram's methods append
+    # (connect's own acceptance table is R1; this is the structural argument for every other appender and for all types)
+    def passes_requirement(fi, node, cfgf):
+        """node is reachable only through the normal edge of a require_flow_to call (or of a call to a checking helper)"""
+        gates = [c for c in walk_no_nested(fi.node) if isinstance(c, ast.Call) and (
+            (isinstance(c.func, ast.Attribute) and c.func.attr == "require_flow_to") or any(checks(h) for h in res.resolve_call(fi, c) if h is not fi))]
+        if not gates:
+            return False
+        gnodes = {cfgf.node_of(g) for g in gates}
+        seen = cfgf.reach(starts=[cfgf.entry], cut=lambda a, b, l: a in gnodes and l != "exc")
+        return cfgf.node_of(node) not in seen
+    _checks_memo = {}
+
+    def checks(h):
+        """every normal return of h lies behind the flow requirement"""
+        if h.key in _checks_memo:
+            return _checks_memo[h.key]
+        _checks_memo[h.key] = False
+        rets = [r for r in walk_no_nested(h.node) if isinstance(r, ast.Return) and r.value is not None]
+        ch = cfg_of(h, led)
+        _checks_memo[h.key] = bool(rets) and all(passes_requirement(h, r, ch) for r in rets)
+        return _checks_memo[h.key]
+
+    def checked_expr(fi, e, site, cfgf, depth=0):
+        if isinstance(e, ast.Call) and any(checks(h) for h in res.resolve_call(fi, e)):
+            return True
+        if isinstance(e, ast.Call) and passes_requirement(fi, site, cfgf):
+            return True                                   # built behind the requirement in this very function
+        if isinstance(e, (ast.ListComp, ast.GeneratorExp)):
+            return checked_expr(fi, e.elt, site, cfgf, depth + 1)
+        if isinstance(e, ast.Name) and depth < 4:
+            binds = [a for a in walk_no_nested(fi.node) if isinstance(a, (ast.Assign, ast.AnnAssign)) and any(isinstance(t, ast.Name) and t.id == e.id for t in (a.targets if isinstance(a, ast.Assign) else [a.target]))]
+            muts = [c for c in walk_no_nested(fi.node) if isinstance(c, ast.Call) and isinstance(c.func, ast.Attribute) and isinstance(c.func.value, ast.Name) and c.func.value.id == e.id
+                    and c.func.attr in ("append", "extend", "insert", "__iadd__")]
+            if not binds:
+                return False
+            for a in binds:
+                v = a.value
+                empty = v is None or (isinstance(v, (ast.List, ast.Tuple)) and not v.elts) or (isinstance(v, ast.Call) and isinstance(v.func, ast.Name) and v.func.id in ("list", "tuple") and not v.args)
+                if not empty and not checked_expr(fi, v, a, cfgf, depth + 1):
+                    return False
+            return all(c.args and checked_expr(fi, c.args[-1], c, cfgf, depth + 1) for c in muts)
+        return False
+    n_foreign = n_app = 0
     for fi in p.all_funcs:
         for k, n in attr_writes(fi.node, "wires", None):
-            if fi is cn or (fi.cls is wd and fi.name == "__init__"):
+            if fi.cls is wd and fi.name in ("__init__", "__post_init__"):
                 continue
-            if k in ("mutcall:append", "mutcall:extend", "mutcall:insert", "assign", "augassign", "subscript-store"):
-                recv = None
-                for x in ast.walk(n):
-                    if isinstance(x, ast.Attribute) and x.attr == "wires":
-                        recv = x.value
-                c = res.expr_class(fi, recv) if recv is not None else None
-                if c is wd or (c is None and fi.module.rel in (W, R)):
-                    n_foreign += 1
-                    led.fail("C16-R2", f"{fi.qual} ▸ {k} wires", where(fi, n), "wire list modified outside connect(): an unchecked connection can be installed")
-    led.ok("C16-R2", "package ▸ writers of the wire list", "operon_ai/", f"{n_foreign} writer(s) other than connect()")
+            if k not in ("mutcall:append", "mutcall:extend", "mutcall:insert", "assign", "augassign", "subscript-store"):
+                continue
+            recv = None
+            for x in ast.walk(n):
+                if isinstance(x, ast.Attribute) and x.attr == "wires":
+                    recv = x.value
+            c = res.expr_class(fi, recv) if recv is not None else None
+            if fi.cls is wd and isinstance(recv, ast.Name) and recv.id == "self":
+                n_app += 1
+                key = f"{fi.qual} ▸ {k} wires ▸ provenance"
+                cfgf = cfg_of(fi, led)
+                val = n.args[-1] if isinstance(n, ast.Call) and n.args else (n.value if isinstance(n, (ast.Assign, ast.AugAssign)) else None)
+                if val is not None and checked_expr(fi, val, n, cfgf):
+                    led.ok("C16-R2", key, where(fi, n), "what is added is the result of the flow requirement (a wire built behind require_flow_to, or returned by a helper every return of which is)")
+                else:
+                    led.fail("C16-R2", key, where(fi, n), "a wire reaches the list on a path that did not pass the flow requirement (or passed its exception edge)")
+            elif c is wd or (c is None and fi.module.rel in (W, R)):
+                n_foreign += 1
+                led.fail("C16-R2", f"{fi.qual} ▸ {k} wires", where(fi, n), "wire list modified outside the diagram's own methods: an unchecked connection can be installed")
+    if n_app == 0:
+        raise AnchorError("no method of WiringDiagram adds to the wire list")
+    led.ok("C16-R2", "package ▸ writers of the wire list", "operon_ai/", f"{n_foreign} writer(s) outside WiringDiagram; {n_app} inside, each with checked provenance")
 
     # ---------------- R3b / R4 / R5: the executor, interpreted on a family of small diagrams with adversarial handlers
     exe = p.find_method(ex, "execute")
